@@ -16,6 +16,9 @@ CHECKS = {
     "C04": dict(spec="Handshake", ref="DESIGN.md §4 C04",
                 text="The server rule of Handshake (echo a supported version, otherwise answer a supported one; session records the answer) and the client/server pairing are checked by TLC on the paired instance (every client list x preference). Real ProtocolHandler.handle_message is driven with every requested-version class - quick: supported versions, neighbours, malformed, non-strings, absent and 4 000 seeded calendar-shaped strings; thorough: all 2 000 000 strings dddd-dd-dd of a 200-year window - and TLC judges answer and recorded session version; the real client is paired with the real server for all 4 550 client configurations and the traces are validated against Handshake.",
                 note="Trusted: TLC; 'supported' is the tree's SUPPORTED_VERSIONS extracted on every run."),
+    "C05": dict(spec="StdioFraming", ref="DESIGN.md §4 C05",
+                text="StdioFraming specifies the reader over a stream description (line ends, well-formedness, positions inside multi-byte characters) with the environment choosing the cuts; TLC checks prefix, completeness and chunk-independence for every chunking with <= 2 cuts of ~190 generated streams (12 line kinds x 7 text classes x LF/CRLF, 1-2 lines, unterminated tails) and, as a vacuity guard, that per-chunk decoding dies on the same cut sets. TLC emits the chunkings; each is fed to the real _stdout_reader (StdioClient behind a process seam) and the per-chunk deliveries on the read and notification streams are validated by TLC against the specification; seeded long streams (up to 450 lines, > 100 messages per chunk) cover the bounded read stream.",
+                note="Trusted: TLC, the process seam, the drain loop of the driver. Known finding: objects with a missing/wrong jsonrpc member are delivered (pinned by repository tests)."),
     "C07": dict(spec="ErrorClass", ref="DESIGN.md §4 C07",
                 text="The error-code sets and helper list are extracted from the tree into TLA+ constants; TLC checks disjointness, partition of the named codes, equality with the documented sets and totality/agreement of the classification over all 1602 codes x helpers. Every code of both ranges plus seeded 64-bit codes is then sent as an error response (7 shapes) to real calls of every discovered request helper and to is_retryable_error, and TLC judges each observed outcome (class raised, code and message carried, False from the boolean helpers) against the specification. The ErrNeverNormal clause is also checked on RequestWait and on recorded send_message traces.",
                 note="Trusted: TLC; the documented sets are transcribed from the pinned errors.py; 64-bit codes are abstracted to one class; send_initialize* are judged only for 'no normal return' (they convert version errors by design)."),
